@@ -69,13 +69,99 @@ class _Canon(ast.NodeTransformer):
         new = ast.If(test=cond.test, body=[self._split_ifexp(a)], orelse=[self._split_ifexp(b)])
         return ast.copy_location(new, node)
 
+    # -- walrus: `if (x := e) is not None and f(x):` is read as `x = e` followed by `if x is not None and f(x):` - possible whenever the named
+    #    expression is the first thing the statement evaluates (the binding then happens exactly where the assignment statement would put it)
+    @staticmethod
+    def _leftmost_walrus(e: ast.AST):
+        """(parent, field, index) of a NamedExpr sitting in the first-evaluated position of expression `e`, else None."""
+        parent, fld, idx, cur = None, None, None, e
+        for _ in range(12):
+            if isinstance(cur, ast.NamedExpr):
+                return parent, fld, idx
+            if isinstance(cur, ast.BoolOp):
+                parent, fld, idx, cur = cur, "values", 0, cur.values[0]
+            elif isinstance(cur, ast.Compare):
+                parent, fld, idx, cur = cur, "left", None, cur.left
+            elif isinstance(cur, ast.BinOp):
+                parent, fld, idx, cur = cur, "left", None, cur.left
+            elif isinstance(cur, ast.UnaryOp):
+                parent, fld, idx, cur = cur, "operand", None, cur.operand
+            elif isinstance(cur, (ast.Subscript, ast.Attribute, ast.Starred)):
+                parent, fld, idx, cur = cur, "value", None, cur.value
+            elif isinstance(cur, ast.IfExp):
+                parent, fld, idx, cur = cur, "test", None, cur.test
+            elif isinstance(cur, ast.Call) and _simple_ref(cur.func) and cur.args and not isinstance(cur.args[0], ast.Starred):
+                parent, fld, idx, cur = cur, "args", 0, cur.args[0]
+            elif isinstance(cur, ast.Call) and not _simple_ref(cur.func):
+                parent, fld, idx, cur = cur, "func", None, cur.func
+            elif isinstance(cur, (ast.Tuple, ast.List)) and cur.elts:
+                parent, fld, idx, cur = cur, "elts", 0, cur.elts[0]
+            else:
+                return None
+        return None
+
+    def _hoist_walrus(self, node: ast.stmt, field_name: str) -> list[ast.stmt]:
+        pre: list[ast.stmt] = []
+        for _ in range(4):
+            e = getattr(node, field_name, None)
+            if e is None:
+                break
+            if isinstance(e, ast.NamedExpr):
+                hit = (node, field_name, None)
+            else:
+                hit = self._leftmost_walrus(e)
+            if hit is None:
+                break
+            parent, fld, idx = hit
+            w = getattr(parent, fld) if idx is None else getattr(parent, fld)[idx]
+            if not isinstance(w, ast.NamedExpr) or not isinstance(w.target, ast.Name):
+                break
+            pre.append(ast.copy_location(ast.Assign(targets=[ast.Name(id=w.target.id, ctx=ast.Store())], value=w.value, type_comment=None), node))
+            ref = ast.copy_location(ast.Name(id=w.target.id, ctx=ast.Load()), w)
+            if idx is None:
+                setattr(parent, fld, ref)
+            else:
+                getattr(parent, fld)[idx] = ref
+        for p_ in pre:
+            ast.fix_missing_locations(p_)
+        return pre
+
+    def visit_If(self, node: ast.If):  # noqa: N802
+        self.generic_visit(node)
+        pre = self._hoist_walrus(node, "test")
+        return [*pre, node] if pre else node
+
+    def visit_While(self, node: ast.While):  # noqa: N802
+        self.generic_visit(node)
+        probe = ast.While(test=node.test, body=[], orelse=[])
+        if self._leftmost_walrus(node.test) is not None or isinstance(node.test, ast.NamedExpr):
+            # `while T(x := e): body`  ==  `while True: x = e; if not T(x): break; body`   (only without an else clause)
+            if not node.orelse:
+                holder = ast.copy_location(ast.If(test=node.test, body=[ast.Pass()], orelse=[]), node)
+                pre = self._hoist_walrus(holder, "test")
+                if pre:
+                    brk = ast.copy_location(ast.If(test=ast.UnaryOp(op=ast.Not(), operand=holder.test), body=[ast.copy_location(ast.Break(), node)], orelse=[]), node)
+                    new = ast.copy_location(ast.While(test=ast.Constant(value=True), body=[*pre, brk, *node.body], orelse=[]), node)
+                    return ast.fix_missing_locations(new)
+        _ = probe
+        return node
+
+    def visit_Expr(self, node: ast.Expr):  # noqa: N802
+        self.generic_visit(node)
+        pre = self._hoist_walrus(node, "value")
+        return [*pre, node] if pre else node
+
     def visit_Return(self, node: ast.Return):  # noqa: N802
         self.generic_visit(node)
-        return self._split_ifexp(node)
+        pre = self._hoist_walrus(node, "value") if node.value is not None else []
+        out = self._split_ifexp(node)
+        return [*pre, out] if pre else out
 
     def visit_Assign(self, node: ast.Assign):  # noqa: N802
         self.generic_visit(node)
-        return self._split_ifexp(node)
+        pre = self._hoist_walrus(node, "value")
+        out = self._split_ifexp(node)
+        return [*pre, out] if pre else out
 
     def visit_AugAssign(self, node: ast.AugAssign):  # noqa: N802
         self.generic_visit(node)
